@@ -15,11 +15,16 @@ import CpProps.C18a
   1. table obligations (regenerated data, `decide`): the code is nowhere stricter than the RFC; every component has a
      written rule; the code is nowhere laxer than a case-sensitive grammar; the list
      separators are not whitespace; which classes match every name case-insensitively; positional components come first
-  2. whitespace and empty elements (every table): through the scanner theorems of the scanner layer
+  2. whitespace and empty elements (every table): through the theorems of the QUOTE-AWARE scanner of the scanner layer
+     (`NameValuePairList._parse` passes `quote_aware=True`: a separator inside a quoted-string is part of the value)
   3. the canonical spelling parses to the pairs it spells
   4. order of the elements, unknown directives: facts about name-keyed matching
   5. case of names, for the classes whose components all match case-insensitively
   6. the full statement: a THEOREM for the nine classes without a positional component; false (witness) for the two with one
+  7. a separator inside a quoted-string value (repair `quote_aware`): the canonical spelling of a value that contains the
+     separator parses back (`fields_canonical_quoted_value`); an unknown directive whose quoted value contains the separator
+     changes no slot (`fields_unknown_quoted_separator_invariant`) and is covered by the full statement
+     (`fields_spelling_invariant_quoted_unknown`)
 -/
 namespace Cp.C18
 open Cp Cp.Text Cp.Gen Cp.Spec.TextRfc
@@ -60,6 +65,12 @@ theorem rfc_rules_cover_table :
 of the scanner theorems holds for every class -/
 theorem separators_are_not_whitespace : fieldTables.all (fun t => !fieldWs.contains t.sep) = true := by decide +kernel
 
+/-- … and none of them is the double quote; SP/HTAB are not the double quote either: the side conditions of the
+quote-aware scanner theorems hold for every class -/
+theorem separators_are_not_quote : fieldTables.all (fun t => t.sep != 0x22) = true := by decide +kernel
+
+theorem fieldWs_no_quote : (0x22 : UInt8) ∉ fieldWs := by decide
+
 /-- the classes all of whose components are matched case-insensitively (`fields_case_invariant` applies to them) -/
 theorem case_free_classes :
     (fieldTables.filter fun t => t.comps.all fun c => c.mode == .caseInsensitive).map (·.cls) =
@@ -81,24 +92,28 @@ theorem positional_components_are_first :
 /-- `parseFields` sees its input only through the items the scanner returns -/
 theorem parseFields_via_scan (T : FieldTable) (b : Bytes) :
     parseFields T b =
-      match scanItems T.sep fieldWs true b with
-      | .ok items => parsePairs T (items.map nameValue)
+      match scanItemsQ T.sep fieldWs true b with
+      | .ok items => if items.all pairOk then parsePairs T (items.map nameValue) else .error .invalidValue
       | .error e => .error e := by
-  unfold parseFields scanItems
-  cases parseStringArray b 0 [T.sep] fieldWs true none with
+  unfold parseFields scanItemsQ
+  cases parseStringArrayQ b 0 [T.sep] fieldWs true none with
   | error e => rfl
   | ok r => rfl
 
 /-- one insignificant edit of a spelling: a run of SP/HTAB before or after a separator or at either end, an
-additional separator (an empty element) anywhere, at the front or at the end -/
+additional separator (an empty element) anywhere, at the front or at the end.  The separators meant are those OUTSIDE
+quoted-strings: the text `a` in front of the edited separator has balanced quotes (`qAfter .out a = .out`; a `;` inside
+`"…"` is part of a value, and whitespace next to it is significant). -/
 inductive WsEdit (sep : UInt8) : Bytes → Bytes → Prop
   | atStart (w b : Bytes) (hw : ∀ x ∈ w, x ∈ fieldWs) : WsEdit sep b (w ++ b)
   | atEnd (w b : Bytes) (hw : ∀ x ∈ w, x ∈ fieldWs) : WsEdit sep b (b ++ w)
-  | beforeSep (a w r : Bytes) (hw : ∀ x ∈ w, x ∈ fieldWs) : WsEdit sep (a ++ sep :: r) (a ++ (w ++ sep :: r))
-  | afterSep (a w r : Bytes) (hw : ∀ x ∈ w, x ∈ fieldWs) : WsEdit sep (a ++ sep :: r) (a ++ sep :: (w ++ r))
-  | emptyElement (a r : Bytes) : WsEdit sep (a ++ sep :: r) (a ++ sep :: sep :: r)
+  | beforeSep (a w r : Bytes) (ha : qAfter .out a = .out) (hw : ∀ x ∈ w, x ∈ fieldWs) :
+      WsEdit sep (a ++ sep :: r) (a ++ (w ++ sep :: r))
+  | afterSep (a w r : Bytes) (ha : qAfter .out a = .out) (hw : ∀ x ∈ w, x ∈ fieldWs) :
+      WsEdit sep (a ++ sep :: r) (a ++ sep :: (w ++ r))
+  | emptyElement (a r : Bytes) (ha : qAfter .out a = .out) : WsEdit sep (a ++ sep :: r) (a ++ sep :: sep :: r)
   | leadingSep (b : Bytes) : WsEdit sep b (sep :: b)
-  | trailingSep (b : Bytes) : WsEdit sep b (b ++ [sep])
+  | trailingSep (b : Bytes) (hb : qAfter .out b = .out) : WsEdit sep b (b ++ [sep])
 
 /-- any number of such edits, applied or undone, in any order -/
 inductive WsVariant (sep : UInt8) : Bytes → Bytes → Prop
@@ -106,45 +121,58 @@ inductive WsVariant (sep : UInt8) : Bytes → Bytes → Prop
   | step {a b c : Bytes} : WsVariant sep a b → WsEdit sep b c → WsVariant sep a c
   | unstep {a b c : Bytes} : WsVariant sep a b → WsEdit sep c b → WsVariant sep a c
 
-theorem scan_wsEdit (sep : UInt8) (hsep : sep ∉ fieldWs) {b b' : Bytes} (h : WsEdit sep b b') :
-    scanItems sep fieldWs true b' = scanItems sep fieldWs true b := by
+theorem scan_wsEdit (sep : UInt8) (hsep : sep ∉ fieldWs) (hq : sep ≠ 0x22) {b b' : Bytes} (h : WsEdit sep b b') :
+    scanItemsQ sep fieldWs true b' = scanItemsQ sep fieldWs true b := by
+  have hqw := fieldWs_no_quote
   cases h with
-  | atStart w b hw => exact ws_at_start sep fieldWs true hsep w b hw
-  | atEnd w b hw => exact ws_at_end sep fieldWs true hsep w b hw
-  | beforeSep a w r hw => exact ws_before_sep sep fieldWs true hsep a w r hw
-  | afterSep a w r hw => exact ws_after_sep sep fieldWs true hsep a w r hw
-  | emptyElement a r => exact empty_element sep fieldWs hsep a r
-  | leadingSep b => exact leading_separator sep fieldWs hsep b
-  | trailingSep b => exact trailing_separator sep fieldWs hsep b
+  | atStart w b hw => exact qa_ws_at_start sep fieldWs true hsep hq hqw w b hw
+  | atEnd w b hw => exact qa_ws_at_end sep fieldWs true hsep hq hqw w b hw
+  | beforeSep a w r ha hw => exact qa_ws_before_sep sep fieldWs true hsep hq hqw a w r ha hw
+  | afterSep a w r ha hw => exact qa_ws_after_sep sep fieldWs true hsep hq hqw a w r ha hw
+  | emptyElement a r ha => exact qa_empty_element sep fieldWs hsep hq hqw a r ha
+  | leadingSep b => exact qa_leading_separator sep fieldWs hsep hq hqw b
+  | trailingSep b hb => exact qa_trailing_separator sep fieldWs hsep hq hqw b hb
 
 /-- WHITESPACE AND EMPTY ELEMENTS.  For every component table whose separator is not SP/HTAB (all of them:
 `separators_are_not_whitespace`), two spellings that differ by any sequence of whitespace runs around separators / at
 the ends and of empty elements are handed to the components identically (same slots, same left-over pairs, same
 error). -/
-theorem fields_ws_invariant (T : FieldTable) (hsep : T.sep ∉ fieldWs) {σ σ' : Bytes} (h : WsVariant T.sep σ σ') :
-    parseFields T σ' = parseFields T σ := by
+theorem fields_ws_invariant (T : FieldTable) (hsep : T.sep ∉ fieldWs) (hq : T.sep ≠ 0x22) {σ σ' : Bytes}
+    (h : WsVariant T.sep σ σ') : parseFields T σ' = parseFields T σ := by
   induction h with
   | refl => rfl
-  | step _ e ih => rw [← ih, parseFields_via_scan, parseFields_via_scan, scan_wsEdit T.sep hsep e]
-  | unstep _ e ih => rw [← ih, parseFields_via_scan, parseFields_via_scan, scan_wsEdit T.sep hsep e]
+  | step _ e ih => rw [← ih, parseFields_via_scan, parseFields_via_scan, scan_wsEdit T.sep hsep hq e]
+  | unstep _ e ih => rw [← ih, parseFields_via_scan, parseFields_via_scan, scan_wsEdit T.sep hsep hq e]
 
 /-! ## 3. the canonical spelling -/
 
-/-- an element as `compose()` writes it: no separator inside, no whitespace at its ends, not empty, ASCII -/
-def Clean (sep : UInt8) (i : Bytes) : Prop := sep ∉ i ∧ trim fieldWs i = i ∧ i ≠ [] ∧ isAscii i = true
+/-- an element as `compose()` writes it: no separator OUTSIDE a quoted-string (`freeQ`; inside `"…"` the separator is
+allowed: `report-uri="https://a.example/r?a=1,2"`), balanced quotes, no whitespace at its ends, not empty, ASCII, and a
+double quote only as the delimiter of a quoted-string value (`pairOk`: anything else makes the list `InvalidValue`) -/
+def Clean (sep : UInt8) (i : Bytes) : Prop :=
+  freeQ sep .out i = true ∧ qAfter .out i = .out ∧ trim fieldWs i = i ∧ i ≠ [] ∧ isAscii i = true ∧ pairOk i = true
+
+/-- an element without separator and without double quote is clean (the elements of the earlier statement) -/
+theorem clean_of_plain (sep : UInt8) (i : Bytes) (h1 : sep ∉ i) (h2 : (0x22 : UInt8) ∉ i)
+    (h3 : trim fieldWs i = i) (h4 : i ≠ []) (h5 : isAscii i = true) : Clean sep i :=
+  ⟨freeQ_of_not_mem sep .out i h1, qAfter_out_of_no_quote i h2, h3, h4, h5, pairOk_of_no_quote i h2⟩
 
 /-- CANONICAL.  Clean elements joined by the separator and any whitespace run (`"a;b"`, `"a; b"` — the spelling
 `compose()` produces) are handed to the components as the pairs they spell. -/
-theorem fields_canonical (T : FieldTable) (hsep : T.sep ∉ fieldWs) (w : Bytes) (hw : ∀ x ∈ w, x ∈ fieldWs)
-    (items : List Bytes) (hi : ∀ i ∈ items, Clean T.sep i) :
+theorem fields_canonical (T : FieldTable) (hsep : T.sep ∉ fieldWs) (hq : T.sep ≠ 0x22) (w : Bytes)
+    (hw : ∀ x ∈ w, x ∈ fieldWs) (items : List Bytes) (hi : ∀ i ∈ items, Clean T.sep i) :
     parseFields T (List.intercalate (T.sep :: w) items) = parsePairs T (items.map nameValue) := by
   unfold parseFields
   cases items with
   | nil =>
     have : List.intercalate (T.sep :: w) ([] : List Bytes) = [] := by simp [List.intercalate]
-    rw [this, canonical_empty T.sep fieldWs hsep]
+    rw [this, qa_canonical_empty T.sep fieldWs hsep hq fieldWs_no_quote]
+    simp
   | cons i is =>
-    rw [canonical_parses_back T.sep fieldWs w true hsep hw (i :: is) (by simp) hi]
+    rw [qa_canonical_parses_back T.sep fieldWs w true hsep hq fieldWs_no_quote hw (i :: is) (by simp)
+      (fun j hj => ⟨(hi j hj).1, (hi j hj).2.1, (hi j hj).2.2.1, (hi j hj).2.2.2.1, (hi j hj).2.2.2.2.1⟩)]
+    have hall : (i :: is).all pairOk = true := List.all_eq_true.mpr (fun j hj => (hi j hj).2.2.2.2.2)
+    simp only [hall, if_true]
 
 /-! ## 4. order of the elements, unknown directives -/
 
@@ -174,7 +202,7 @@ theorem parsePairs_perm_extra (T : FieldTable) (ps ps' e : List Pair) (hperm : p
 `extra` whose names no component accepts (unknown directives), spelled with any whitespace runs after the separators.
 If no name is spelled twice and no component accepts two of the names, every component is handed the same text as from
 the canonical spelling of `items`, and the unknown elements are left over. -/
-theorem fields_order_unknown_invariant (T : FieldTable) (hsep : T.sep ∉ fieldWs) (w w' : Bytes)
+theorem fields_order_unknown_invariant (T : FieldTable) (hsep : T.sep ∉ fieldWs) (hq : T.sep ≠ 0x22) (w w' : Bytes)
     (hw : ∀ x ∈ w, x ∈ fieldWs) (hw' : ∀ x ∈ w', x ∈ fieldWs) (items items' extra : List Bytes)
     (hperm : items'.Perm (items ++ extra))
     (hclean : ∀ i ∈ items', Clean T.sep i)
@@ -184,7 +212,7 @@ theorem fields_order_unknown_invariant (T : FieldTable) (hsep : T.sep ∉ fieldW
     SameSlots (extra.map nameValue) (parseFields T (List.intercalate (T.sep :: w) items))
       (parseFields T (List.intercalate (T.sep :: w') items')) := by
   have hclean0 : ∀ i ∈ items, Clean T.sep i := fun i hi => hclean i (hperm.mem_iff.mpr (List.mem_append_left _ hi))
-  rw [fields_canonical T hsep w hw items hclean0, fields_canonical T hsep w' hw' items' hclean]
+  rw [fields_canonical T hsep hq w hw items hclean0, fields_canonical T hsep hq w' hw' items' hclean]
   apply parsePairs_perm_extra T _ _ (extra.map nameValue)
   · simpa using hperm.map nameValue
   · exact hnames
@@ -249,7 +277,8 @@ def rfcInsensitive (T : FieldTable) (c : FieldComp) : Bool :=
 * the canonical one;
 * any sequence of whitespace / empty-element edits of a spelling (`WsVariant`);
 * the elements in any other order;
-* an additional element no component accepts (an unknown directive), whose name is not yet there;
+* an additional element no component accepts (an unknown directive), whose name is not yet there — `Clean` allows its
+  value to be a quoted-string that contains the separator (`x="a; includeSubDomains; c"`);
 * another case pattern of a name that belongs (case-insensitively) to a component the RFC declares case-insensitive. -/
 inductive Variants (T : FieldTable) : List Bytes → Bytes → Prop
   | canonical (items : List Bytes) : Variants T items (spell T items)
@@ -419,27 +448,27 @@ theorem variants_reduce (T : FieldTable) (hre : RecaseOk T) {items : List Bytes}
 /-- THE FULL STATEMENT, PROVED for every table without a positional component in which `recase` cannot change what is
 matched (`RecaseOk`): whitespace runs and empty elements, any order, unknown directives and other case patterns — in
 any combination — hand every component the same text as the canonical spelling. -/
-theorem fields_spelling_invariant (T : FieldTable) (hsep : T.sep ∉ fieldWs) (hno : ∀ c ∈ T.comps, c.mode ≠ .anyName)
-    (hre : RecaseOk T) : FullFor T := by
+theorem fields_spelling_invariant (T : FieldTable) (hsep : T.sep ∉ fieldWs) (hq : T.sep ≠ 0x22)
+    (hno : ∀ c ∈ T.comps, c.mode ≠ .anyName) (hre : RecaseOk T) : FullFor T := by
   intro items σ hc hn hv
   obtain ⟨items', hc', hn', hw, f, e, hf, hm, hp, hu⟩ := variants_reduce T hre hv hc hn
   have hwsp : ∀ x ∈ ([0x20] : Bytes), x ∈ fieldWs := by decide
-  rw [fields_ws_invariant T hsep hw]
+  rw [fields_ws_invariant T hsep hq hw]
   unfold spell
-  rw [fields_canonical T hsep [0x20] hwsp items' hc', fields_canonical T hsep [0x20] hwsp items hc]
+  rw [fields_canonical T hsep hq [0x20] hwsp items' hc', fields_canonical T hsep hq [0x20] hwsp items hc]
   refine parsePairs_variant T hno _ _ e f hf hm hp hu ?_
   rw [List.map_map]
   exact hn'
 
 /-- the side conditions as a decidable check of a table -/
 def fullOk (T : FieldTable) : Bool :=
-  !fieldWs.contains T.sep && T.comps.all (fun c => c.mode != .anyName) &&
+  !fieldWs.contains T.sep && T.sep != 0x22 && T.comps.all (fun c => c.mode != .anyName) &&
     (T.comps.all (fun c => c.mode == .caseInsensitive) || T.comps.all (fun c => !rfcInsensitive T c))
 
 theorem fullFor_of_fullOk (T : FieldTable) (h : fullOk T = true) : FullFor T := by
   simp only [fullOk, Bool.and_eq_true, Bool.or_eq_true, List.all_eq_true, Bool.not_eq_true', bne_iff_ne, ne_eq,
     beq_iff_eq] at h
-  refine fields_spelling_invariant T (by simpa using h.1.1) h.1.2 ?_
+  refine fields_spelling_invariant T (by simpa using h.1.1.1) h.1.1.2 h.1.2 ?_
   rcases h.2 with h' | h'
   · exact Or.inl h'
   · exact Or.inr h'
@@ -481,11 +510,11 @@ def xssTable : FieldTable :=
      ⟨"report", "report", .string, true, .caseInsensitive⟩], none⟩
 
 theorem clean_of_check (sep : UInt8) (i : Bytes)
-    (h : (!i.contains sep && (trim fieldWs i == i) && !i.isEmpty && isAscii i) = true) : Clean sep i := by
-  simp only [Bool.and_eq_true, Bool.not_eq_true', beq_iff_eq] at h
-  refine ⟨?_, h.1.1.2, ?_, h.2⟩
-  · intro hm; have := h.1.1.1; simp [hm] at this
-  · intro he; have := h.1.2; simp [he] at this
+    (h : (freeQ sep .out i && decide (qAfter .out i = .out) && (trim fieldWs i == i) && !i.isEmpty && isAscii i &&
+      pairOk i) = true) : Clean sep i := by
+  simp only [Bool.and_eq_true, Bool.not_eq_true', beq_iff_eq, decide_eq_true_eq] at h
+  refine ⟨h.1.1.1.1.1, h.1.1.1.1.2, h.1.1.1.2, ?_, h.1.2, h.2⟩
+  intro he; have := h.1.1.2; simp [he] at this
 
 /-- WITNESS that the full statement is false for a positional first element: `t/h; charset=u` and `charset=u; t/h`
 are related by `Variants.order`, but the second hands `charset=u` to the media-type component.  Same for
@@ -524,7 +553,164 @@ theorem fields_spelling_invariant_partial (T : FieldTable) (hT : T ∈ fieldTabl
   have hsep : T.sep ∉ fieldWs := by
     have := hall T hT
     simpa using this
-  exact fields_ws_invariant T hsep h
+  have hq : T.sep ≠ 0x22 := by
+    have hall2 := separators_are_not_quote
+    rw [List.all_eq_true] at hall2
+    simpa using hall2 T hT
+  exact fields_ws_invariant T hsep hq h
+
+/-! ## 7. a separator inside a quoted-string value
+
+What the quote-unaware splitter got wrong (the former findings `unknown-directive:<Class>:quoted-separator` and
+`canonical:<Class>:separator-in-quoted-string`), as theorems about the repaired code. -/
+
+/-- the element `key="body"` -/
+def quotedPair (key body : Bytes) : Bytes := key ++ 0x3d :: 0x22 :: (body ++ [0x22])
+
+theorem splitFirstEq_key (key rest : Bytes) (hk : (0x3d : UInt8) ∉ key) :
+    splitFirstEq (key ++ 0x3d :: rest) = some (key, rest) := by
+  induction key with
+  | nil => simp [splitFirstEq]
+  | cons x xs ih =>
+    have hx : x ≠ 0x3d := fun h => hk (by simp [h])
+    simp [splitFirstEq, hx, ih (fun h => hk (by simp [h]))]
+
+/-- `NameValuePair` reads `key="body"` as the pair (key, body): the quotes are removed, the body — separators
+included — is the value -/
+theorem nameValue_quotedPair (key body : Bytes) (hk : (0x3d : UInt8) ∉ key) (hkt : trimEnd fieldWs key = key) :
+    nameValue (quotedPair key body) = (key, some body) := by
+  unfold nameValue quotedPair
+  rw [splitFirstEq_key key _ hk]
+  simp only [hkt]
+  have h1 : (0x22 :: (body ++ [0x22]) : Bytes).dropWhile (· = 0x3d) = 0x22 :: (body ++ [0x22]) := by
+    simp [List.dropWhile]
+  have h2 : trimStart fieldWs (0x22 :: (body ++ [0x22])) = 0x22 :: (body ++ [0x22]) :=
+    trimStart_head fieldWs _ (by intro y r e; cases e; decide)
+  rw [h1, h2]
+  simp [stripQuotes]
+
+/-- `key="body"` passes the well-formedness check of the list: the double quotes delimit a quoted-string value -/
+theorem pairOk_quotedPair (key body : Bytes) (hk2 : (0x22 : UInt8) ∉ key) (hk3 : (0x3d : UInt8) ∉ key)
+    (hkt : trimEnd fieldWs key = key) (hbody : quotedBody .inq body = true) : pairOk (quotedPair key body) = true := by
+  have hnv := nameValue_quotedPair key body hk3 hkt
+  unfold pairOk
+  rw [hnv]
+  have hraw : rawValue (quotedPair key body) = some (0x22 :: (body ++ [0x22])) := by
+    unfold rawValue quotedPair
+    rw [splitFirstEq_key key _ hk3]
+    have h1 : (0x22 :: (body ++ [0x22]) : Bytes).dropWhile (· = 0x3d) = 0x22 :: (body ++ [0x22]) := by
+      simp [List.dropWhile]
+    have h2 : trimStart fieldWs (0x22 :: (body ++ [0x22])) = 0x22 :: (body ++ [0x22]) :=
+      trimStart_head fieldWs _ (by intro y r e; cases e; decide)
+    simp only [h1, h2]
+  rw [hraw]
+  simp [valueOk, stripQuotes, hk2, hbody]
+
+/-- `key="body"` is a clean element whatever separators, spaces and quoted-pairs the body contains -/
+theorem clean_quotedPair (sep : UInt8) (hq : sep ≠ 0x22) (hs : sep ≠ 0x3d) (key body : Bytes) (hk1 : sep ∉ key)
+    (hk2 : (0x22 : UInt8) ∉ key) (hk3 : (0x3d : UInt8) ∉ key) (hkt : trimEnd fieldWs key = key)
+    (hbody : quotedBody .inq body = true) (hhead : ∀ y r, key = y :: r → y ∉ fieldWs)
+    (hascii : isAscii (quotedPair key body) = true) : Clean sep (quotedPair key body) := by
+  have hq' : quotedPair key body = (key ++ [0x3d]) ++ 0x22 :: (body ++ [0x22]) := by simp [quotedPair]
+  obtain ⟨h1, h2⟩ := name_quoted_free sep hq (key ++ [0x3d]) body (by simp [hk1, hs]) (by simp [hk2]) hbody
+  refine ⟨by rw [hq']; exact h1, by rw [hq']; exact h2, ?_, by simp [quotedPair], hascii,
+    pairOk_quotedPair key body hk2 hk3 hkt hbody⟩
+  have hlast : quotedPair key body = (key ++ 0x3d :: 0x22 :: body) ++ [0x22] := by simp [quotedPair]
+  unfold trim
+  rw [trimStart_head fieldWs _ (by
+    intro y r e
+    cases key with
+    | nil => simp [quotedPair] at e; rw [← e.1]; decide
+    | cons z zs => simp [quotedPair] at e; exact hhead y zs (by rw [e.1]))]
+  rw [hlast, trimEnd_last fieldWs _ 0x22 (by decide)]
+
+/-- CANONICAL, WITH A SEPARATOR INSIDE A QUOTED VALUE.  The spelling `compose()` writes for a value that contains the
+list separator (`report-uri="https://a.example/r?a=1,2"` in the comma list of Expect-CT, `…/r;a=1` in the semicolon
+lists of Expect-Staple and Public-Key-Pins) is handed to the components as the pairs it spells: the element
+`key="body"` arrives as the ONE pair (key, body), the separators of the body inside it. -/
+theorem fields_canonical_quoted_value (T : FieldTable) (hsep : T.sep ∉ fieldWs) (hq : T.sep ≠ 0x22) (hs : T.sep ≠ 0x3d)
+    (w : Bytes) (hw : ∀ x ∈ w, x ∈ fieldWs) (pre post : List Bytes) (key body : Bytes)
+    (hi : ∀ i ∈ pre ++ post, Clean T.sep i)
+    (hk1 : T.sep ∉ key) (hk2 : (0x22 : UInt8) ∉ key) (hk3 : (0x3d : UInt8) ∉ key) (hkt : trimEnd fieldWs key = key)
+    (hhead : ∀ y r, key = y :: r → y ∉ fieldWs) (hbody : quotedBody .inq body = true)
+    (hascii : isAscii (quotedPair key body) = true) :
+    parseFields T (List.intercalate (T.sep :: w) (pre ++ quotedPair key body :: post)) =
+      parsePairs T (pre.map nameValue ++ (key, some body) :: post.map nameValue) := by
+  have hc := clean_quotedPair T.sep hq hs key body hk1 hk2 hk3 hkt hbody hhead hascii
+  rw [fields_canonical T hsep hq w hw]
+  · simp [nameValue_quotedPair key body hk3 hkt]
+  · intro i hmem
+    rcases List.mem_append.mp hmem with h | h
+    · exact hi i (List.mem_append_left _ h)
+    · rcases List.mem_cons.mp h with h | h
+      · rw [h]; exact hc
+      · exact hi i (List.mem_append_right _ h)
+
+/-- AN UNKNOWN DIRECTIVE WITH A QUOTED VALUE THAT CONTAINS THE SEPARATOR (`x="a; includeSubDomains; c"`), inserted at
+any position of the canonical spelling: every component is handed the same text as without it — in particular no flag
+directive named inside the quotes is switched on — and the directive is left over as the one pair (key, body). -/
+theorem fields_unknown_quoted_separator_invariant (T : FieldTable) (hsep : T.sep ∉ fieldWs) (hq : T.sep ≠ 0x22)
+    (hs : T.sep ≠ 0x3d) (w w' : Bytes) (hw : ∀ x ∈ w, x ∈ fieldWs) (hw' : ∀ x ∈ w', x ∈ fieldWs)
+    (pre post : List Bytes) (key body : Bytes)
+    (hi : ∀ i ∈ pre ++ post, Clean T.sep i)
+    (hk1 : T.sep ∉ key) (hk2 : (0x22 : UInt8) ∉ key) (hk3 : (0x3d : UInt8) ∉ key) (hkt : trimEnd fieldWs key = key)
+    (hhead : ∀ y r, key = y :: r → y ∉ fieldWs) (hbody : quotedBody .inq body = true)
+    (hascii : isAscii (quotedPair key body) = true)
+    (hnames : (((pre ++ quotedPair key body :: post).map nameValue).map (·.1)).Nodup)
+    (hunknown : ∀ c ∈ T.comps, matchesComp c (key, some body) = false)
+    (hunamb : ∀ c ∈ T.comps, (((pre ++ post).map nameValue).filter (matchesComp c)).length ≤ 1) :
+    SameSlots [(key, some body)] (parseFields T (List.intercalate (T.sep :: w) (pre ++ post)))
+      (parseFields T (List.intercalate (T.sep :: w') (pre ++ quotedPair key body :: post))) := by
+  have hc := clean_quotedPair T.sep hq hs key body hk1 hk2 hk3 hkt hbody hhead hascii
+  have hnv := nameValue_quotedPair key body hk3 hkt
+  have hperm : (pre ++ quotedPair key body :: post).Perm ((pre ++ post) ++ [quotedPair key body]) :=
+    List.perm_middle.trans (List.perm_append_singleton _ _).symm
+  have := fields_order_unknown_invariant T hsep hq w w' hw hw' (pre ++ post) (pre ++ quotedPair key body :: post)
+    [quotedPair key body] hperm ?_ hnames ?_ hunamb
+  · simpa [hnv] using this
+  · intro i hmem
+    rcases List.mem_append.mp hmem with h | h
+    · exact hi i (List.mem_append_left _ h)
+    · rcases List.mem_cons.mp h with h | h
+      · rw [h]; exact hc
+      · exact hi i (List.mem_append_right _ h)
+  · intro u hu c hcm
+    rw [List.mem_singleton.mp hu, hnv]
+    exact hunknown c hcm
+
+/-- THE FULL STATEMENT covers such directives: for every class of the live table without a positional component, an
+unknown `key="body"` whose body contains the separator, appended to ANY spelling of the family, leaves every slot as
+the canonical spelling has it. -/
+theorem fields_spelling_invariant_quoted_unknown (T : FieldTable) (hfull : FullFor T) (hq : T.sep ≠ 0x22)
+    (hs : T.sep ≠ 0x3d) (items : List Bytes) (σ : Bytes) (key body : Bytes)
+    (hc : ∀ i ∈ items, Clean T.sep i) (hn : (lowerNames items).Nodup)
+    (hk1 : T.sep ∉ key) (hk2 : (0x22 : UInt8) ∉ key) (hk3 : (0x3d : UInt8) ∉ key) (hkt : trimEnd fieldWs key = key)
+    (hhead : ∀ y r, key = y :: r → y ∉ fieldWs) (hbody : quotedBody .inq body = true)
+    (hascii : isAscii (quotedPair key body) = true)
+    (hunknown : ∀ c ∈ T.comps, matchesComp c (key, some body) = false)
+    (hfresh : asciiLower key ∉ lowerNames items)
+    (hv : Variants T (items ++ [quotedPair key body]) σ) :
+    (parseFields T σ).map (·.slots) = (parseFields T (spell T items)).map (·.slots) := by
+  have hnv := nameValue_quotedPair key body hk3 hkt
+  refine hfull items σ hc hn (.unknown (quotedPair key body)
+    (clean_quotedPair T.sep hq hs key body hk1 hk2 hk3 hkt hbody hhead hascii) ?_ ?_ hv)
+  · rw [hnv]; exact hunknown
+  · rw [hnv]; exact hfresh
+
+/-- A STRAY DOUBLE QUOTE IS REJECTED.  If one of the items of the list is not well-formed (`pairOk`: a double quote in a
+name, in an unquoted value, unescaped inside a quoted value, or a quoted value ending in a lone backslash), the whole
+list is `InvalidValue` — it is never split at a place that depends on a guess about the quote. -/
+theorem fields_stray_quote_rejected (T : FieldTable) (b : Bytes) (items : List Bytes)
+    (hscan : scanItemsQ T.sep fieldWs true b = .ok items) (hbad : ∃ i ∈ items, pairOk i = false) :
+    parseFields T b = .error .invalidValue := by
+  rw [parseFields_via_scan, hscan]
+  have : items.all pairOk = false := by
+    obtain ⟨i, hi, hp⟩ := hbad
+    apply Bool.eq_false_iff.mpr
+    intro hall
+    have := List.all_eq_true.mp hall i hi
+    rw [hp] at this; cases this
+  simp [this]
 
 /-! ## non-vacuity -/
 
@@ -567,10 +753,48 @@ example : odOfList [([0x61], some [0x31]), ([0x62], none), ([0x61], some [0x32])
   decide
 -- the hypotheses of the order/unknown theorem are satisfiable: three clean elements, an unknown one
 example : Clean 59 [0x6d, 0x61, 0x78, 0x2d, 0x61, 0x67, 0x65, 0x3d, 0x31] := by
-  refine ⟨by decide, by decide, by decide, by decide⟩
+  refine ⟨by decide, by decide, by decide, by decide, by decide, by decide⟩
 example : ∀ c ∈ stsTable.comps, matchesComp c (nameValue [0x78, 0x3d, 0x79]) = false := by decide +kernel
 -- `WsVariant` relates different spellings: "a;b" and "a ;b"
 example : WsVariant 59 [0x61, 0x3b, 0x62] [0x61, 0x20, 0x3b, 0x62] :=
-  .step (.refl _) (WsEdit.beforeSep [0x61] [0x20] [0x62] (by decide))
+  .step (.refl _) (WsEdit.beforeSep [0x61] [0x20] [0x62] (by decide) (by decide))
+
+
+-- the former finding `unknown-directive:HttpHeaderFieldValueSTS:quoted-separator`:
+-- `x="a; includeSubDomains; c"; max-age=0` — includeSubDomains stays off, the unknown directive is ONE left-over pair
+example : parseFields stsTable
+    [0x78, 0x3d, 0x22, 0x61, 0x3b, 0x20, 0x69, 0x6e, 0x63, 0x6c, 0x75, 0x64, 0x65, 0x53, 0x75, 0x62, 0x44, 0x6f, 0x6d, 0x61,
+     0x69, 0x6e, 0x73, 0x3b, 0x20, 0x63, 0x22, 0x3b, 0x20, 0x6d, 0x61, 0x78, 0x2d, 0x61, 0x67, 0x65, 0x3d, 0x30] =
+    .ok ⟨[.value [0x30], .absent, .absent],
+      [([0x78], some [0x61, 0x3b, 0x20, 0x69, 0x6e, 0x63, 0x6c, 0x75, 0x64, 0x65, 0x53, 0x75, 0x62, 0x44, 0x6f, 0x6d, 0x61,
+        0x69, 0x6e, 0x73, 0x3b, 0x20, 0x63])]⟩ := by decide +kernel
+-- the former finding `canonical:HttpHeaderFieldValueExpectCT:separator-in-quoted-string`:
+-- `max-age=5, report-uri="https://a.example/r?a=1,2"` — the report-uri component is handed the whole URI
+example : (fieldTables.find? (·.cls == "HttpHeaderFieldValueExpectCT")).map
+    (fun T => (parseFields T
+      [0x6d, 0x61, 0x78, 0x2d, 0x61, 0x67, 0x65, 0x3d, 0x35, 0x2c, 0x20, 0x72, 0x65, 0x70, 0x6f, 0x72, 0x74, 0x2d, 0x75, 0x72,
+       0x69, 0x3d, 0x22, 0x68, 0x74, 0x74, 0x70, 0x73, 0x3a, 0x2f, 0x2f, 0x61, 0x2e, 0x65, 0x78, 0x61, 0x6d, 0x70, 0x6c, 0x65,
+       0x2f, 0x72, 0x3f, 0x61, 0x3d, 0x31, 0x2c, 0x32, 0x22]).map
+      (fun a => a.slots.contains (.value
+        [0x68, 0x74, 0x74, 0x70, 0x73, 0x3a, 0x2f, 0x2f, 0x61, 0x2e, 0x65, 0x78, 0x61, 0x6d, 0x70, 0x6c, 0x65, 0x2f, 0x72,
+         0x3f, 0x61, 0x3d, 0x31, 0x2c, 0x32]))) = some (.ok true) := by
+  decide +kernel
+-- the hypotheses of the quoted-value theorems are satisfiable: key `x`, body `a; b`
+example : Clean 59 (quotedPair [0x78] [0x61, 0x3b, 0x20, 0x62]) := clean_of_check _ _ (by decide)
+example : nameValue (quotedPair [0x78] [0x61, 0x3b, 0x20, 0x62]) = ([0x78], some [0x61, 0x3b, 0x20, 0x62]) := by decide
+-- an element with an UNBALANCED quote is not clean (it swallows what follows it)
+example : ¬ Clean 59 [0x78, 0x3d, 0x22, 0x61] := by
+  intro h; exact absurd h.2.1 (by decide)
+-- a stray double quote makes the whole list InvalidValue: `max-age=0; x=a"b"` (HSTS); as the LAST item an unclosed
+-- quoted value is accepted: `max-age=0; x="a; b`
+example : parseFields stsTable
+    [0x6d, 0x61, 0x78, 0x2d, 0x61, 0x67, 0x65, 0x3d, 0x30, 0x3b, 0x20, 0x78, 0x3d, 0x61, 0x22, 0x62, 0x22] =
+    .error .invalidValue := by decide +kernel
+example : parseFields stsTable
+    [0x6d, 0x61, 0x78, 0x2d, 0x61, 0x67, 0x65, 0x3d, 0x30, 0x3b, 0x20, 0x78, 0x3d, 0x22, 0x61, 0x3b, 0x20, 0x62] =
+    .ok ⟨[.value [0x30], .absent, .absent], [([0x78], some [0x61, 0x3b, 0x20, 0x62])]⟩ := by decide +kernel
+example : pairOk [0x78, 0x3d, 0x61, 0x22, 0x62, 0x22] = false := by decide
+-- whitespace inside a quoted-string is NOT an insignificant edit: `WsEdit.beforeSep` needs balanced quotes in front
+example : qAfter .out [0x78, 0x3d, 0x22, 0x61] = .inq := by decide
 
 end Cp.C18
